@@ -23,7 +23,9 @@ def _values_for(value, rng, pool):
     if isinstance(value, (bytes, bytearray)):
         t = type(value)
         return [('empty', t(b'')), ('zero1', t(b'\x00')), ('random33', t(bytes(rng.randrange(256) for _ in range(33)))), ('ff2', t(b'\xff' * 2)),
-                ('doubled', t(bytes(value) * 2))]
+                ('doubled', t(bytes(value) * 2)),
+                # the same octets as the other byte-string type (accepted only where the validator allows both)
+                ('other-bytes-type', (bytes if t is bytearray else bytearray)(value))]
     if isinstance(value, str):
         return [('len1', 'a'), ('len7', 'abc-123'), ('len255', 'x' * 255), ('len256', 'y' * 256), ('len300', 'z1' * 150), ('len600', 'w' * 600),
                 ('doubled', value + value),
